@@ -239,6 +239,13 @@ def blockChunk (t : Tracker) (declared actual : Nat) : Tracker × Out :=
                  -- `on_block_start` sets the monitors' `saw_block`
                  listeners := t.listeners.map fun (k, l) => (k, { l with st := { l.st with sawBlock := true } }) }, .ok)
 
+/-- Restart of the signer (`Node::new_from_persistence`): the tracker entry (headers, tip, height,
+listeners) comes back from the persister, no stream is in progress, and the trusted oracle set is
+re-installed from the node's configuration (`tracker.trusted_oracle_pubkeys =
+services.trusted_oracle_pubkeys`), i.e. under an unchanged configuration restart is the identity on
+the trusted set. -/
+def restart (t : Tracker) : Tracker := { t with decoding := none, ldec := false }
+
 /-- The observable part of the tracker the property speaks about: everything except the streaming
 scratch (`decoding`, `ldec`). -/
 structure View where
